@@ -23,6 +23,7 @@ type envVar struct {
 
 type customCaps struct {
 	Bool      bool     `json:"bool"`
+	BoolFalse bool     `json:"boolfalse"` // has IsBoolFlag(), which answers false
 	Multi     bool     `json:"multi"`
 	IsDefault bool     `json:"isdefault"`
 	FailOn    []string `json:"failon"` // tokens Set rejects
@@ -106,6 +107,19 @@ type customBD struct{ customBase }
 type customMD struct{ customBase }
 type customBMD struct{ customBase }
 
+type customF struct{ customBase }
+type customFM struct{ customBase }
+type customFD struct{ customBase }
+type customFMD struct{ customBase }
+
+func (c *customF) IsBoolFlag() bool   { return false }
+func (c *customFM) IsBoolFlag() bool  { return false }
+func (c *customFD) IsBoolFlag() bool  { return false }
+func (c *customFMD) IsBoolFlag() bool { return false }
+func (c *customFM) Clear()            { *c.log = append(*c.log, "C") }
+func (c *customFMD) Clear()           { *c.log = append(*c.log, "C") }
+func (c *customFD) IsDefault() bool   { return true }
+func (c *customFMD) IsDefault() bool  { return true }
 func (c *customB) IsBoolFlag() bool   { return true }
 func (c *customBM) IsBoolFlag() bool  { return true }
 func (c *customBD) IsBoolFlag() bool  { return true }
@@ -125,6 +139,14 @@ func mkCustom(caps customCaps, log *[]string) flag.Value {
 		b.failOn[f] = true
 	}
 	switch {
+	case caps.BoolFalse && caps.Multi && caps.IsDefault:
+		return &customFMD{b}
+	case caps.BoolFalse && caps.Multi:
+		return &customFM{b}
+	case caps.BoolFalse && caps.IsDefault:
+		return &customFD{b}
+	case caps.BoolFalse:
+		return &customF{b}
 	case caps.Bool && caps.Multi && caps.IsDefault:
 		return &customBMD{b}
 	case caps.Bool && caps.Multi:
